@@ -5,9 +5,9 @@ wt="$1"; demo="$2"; shift 2
 cd "$wt" || exit 2
 git checkout -q -- crates src 2>/dev/null
 git apply patch.diff || { echo "patch does not apply"; exit 2; }
-CARGO_TARGET_DIR=$wt/target cargo test -p sas-lexer --test "$demo" --offline "$@" > /tmp/confirm_with.txt 2>&1; rc_with=$?
+CARGO_TARGET_DIR=$wt/target cargo test -p sas-lexer --test "$demo" --offline "$@" > $wt/confirm_with.txt 2>&1; rc_with=$?
 git apply -R patch.diff
-CARGO_TARGET_DIR=$wt/target cargo test -p sas-lexer --test "$demo" --offline "$@" > /tmp/confirm_without.txt 2>&1; rc_without=$?
-echo "WITH change: rc=$rc_with $(grep -E '^test result' /tmp/confirm_with.txt | head -1)"
-echo "WITHOUT change: rc=$rc_without $(grep -E '^test result' /tmp/confirm_without.txt | head -1)"
+CARGO_TARGET_DIR=$wt/target cargo test -p sas-lexer --test "$demo" --offline "$@" > $wt/confirm_without.txt 2>&1; rc_without=$?
+echo "WITH change: rc=$rc_with $(grep -E '^test result' $wt/confirm_with.txt | head -1)"
+echo "WITHOUT change: rc=$rc_without $(grep -E '^test result' $wt/confirm_without.txt | head -1)"
 [ $rc_with -ne 0 ] && [ $rc_without -eq 0 ] && echo CONFIRMED || echo NOT-CONFIRMED
